@@ -71,9 +71,9 @@ def mk_matrix(rng, fill, m, n):
 
 
 def cases(rng, tier):
-    n1 = {"quick": 420, "thorough": 6000, "search": 2000}[tier]
-    n2 = {"quick": 500, "thorough": 7000, "search": 2500}[tier]
-    n3 = {"quick": 120, "thorough": 1600, "search": 600}[tier]
+    n1 = {"quick": 700, "thorough": 10000, "search": 3500}[tier]
+    n2 = {"quick": 900, "thorough": 13000, "search": 4500}[tier]
+    n3 = {"quick": 200, "thorough": 2800, "search": 1000}[tier]
     out = []
     for _ in range(n1):
         N = rng.choice([2, 2, 3, 3, 4])
@@ -227,6 +227,9 @@ def run_tsvd(ctx, case):
     ctx.count("op:" + op); ctx.count("fill:" + case["fill"]); ctx.count("alg:" + alg); ctx.count("budget:" + bk); ctx.count("left_ortho:%s" % lo)
     ctx.count("rmax:" + ("none" if rmax is None else "int"))
     pred = pred_tsvd(s, alg, K)
+    if pred.startswith("0 < norm") and alg == "eig" and s[-1] <= 1e-7 * s[0]:
+        ctx.count("skipped:tiny norm and eig and rank-deficient (two defects overlap, attribution ambiguous)")
+        return
     kw = {"left_ortho": lo, "algorithm": alg}
     if rmax is not None:
         kw["rmax"] = rmax
@@ -245,6 +248,9 @@ def run_tsvd(ctx, case):
     if not (np.all(np.isfinite(L)) and np.all(np.isfinite(R))):
         report(ctx, case, op, pred, "non-finite", "non-finite factor entries"); return
     r = L.shape[1]
+    if pred.startswith("0 < norm") and not np.any(L @ R):
+        report(ctx, case, op, pred, "non-zero matrix treated as zero", "sigma_1 = %.3e > 0 but left@right is identically zero (rank %d)" % (s[0], r))
+        return
     # -- rank: min(rmax, max(1, least r with tail(r) <= delta^2)); band for the float comparison of tail and delta^2
     tol = (1e-13 if alg == "svd" else 1e-11) * lam1 + 1e-9 * delta ** 2
     r_lo = min_rank_for(s, delta ** 2 + tol)
@@ -288,14 +294,14 @@ def run_tsvd(ctx, case):
                 report(ctx, case, op, pred, "requested side not orthonormal", "max |Q^T Q - I| = %.3e (left_ortho=%s, sigma_r/sigma_1 = %.2e)" % (dev, lo, ratio))
         else:
             ctx.count("orthonormality_noise_level_singular_value_kept")
-            if dev > 1e-6:
-                p2 = "a kept singular value is below 1e-8*sigma_1 (rank-deficient M, budget below the float noise) and %s" % (
-                    "left_ortho=False" if alg == "svd" else "algorithm='eig'")
-                if not (alg == "svd" and lo):
-                    report(ctx, case, op, p2, "requested side not orthonormal",
-                           "max |Q^T Q - I| = %.3e (left_ortho=%s, sigma_r/sigma_1 = %.2e): the orthonormal side is obtained by dividing by sigma_r" % (dev, lo, ratio))
-                else:
-                    report(ctx, case, op, pred, "requested side not orthonormal", "max |Q^T Q - I| = %.3e (left_ortho=%s)" % (dev, lo))
+            # eig: singular values below 1e-8*sigma_1 are not resolvable from the Gram matrix (documented "less accurate"): only counted.
+            # svd: an orthonormal basis is available from the SVD itself whatever sigma_r is, so a grossly non-orthonormal side is reported.
+            if dev > 1e-6 and alg == "svd":
+                p2 = "left_ortho=False and a kept singular value below 1e-8*sigma_1 (rank-deficient M, budget below the float noise)" if not lo else pred
+                report(ctx, case, op, p2, "requested side not orthonormal",
+                       "max |Q^T Q - I| = %.3e (left_ortho=%s, sigma_r/sigma_1 = %.2e): the orthonormal side is obtained by dividing by sigma_r" % (dev, lo, ratio))
+            elif dev > 1e-6:
+                ctx.count("eig_noise_level_side_not_orthonormal(not reported)")
     if getattr(ctx, "use_model", False) and not getattr(ctx, "search_only", False):
         pass  # MODEL HOOK: L, R, r
 
